@@ -34,11 +34,11 @@ def normalise(tree):
                 nts[st.targets[0].id] = (fl, st)
     if not nts:
         return 0
+    done = _explode_record_params(tree, nts)
     parents = {}
     for n in ast.walk(tree):
         for c in ast.iter_child_nodes(n):
             parents[c] = n
-    done = 0
     for name, (fields, defst) in list(nts.items()):
         ok = True
         ctor_calls, make_calls = [], []
@@ -117,6 +117,78 @@ def normalise(tree):
                     else:
                         out.append(a)
                 n.args = out
+        ast.fix_missing_locations(tree)
+    return done
+
+
+def _explode_record_params(tree, nts):
+    """a private function/method whose parameter `r` is only ever read as `r.<field>` and which every caller in the module calls
+    with a record constructed on the spot (`f(NT(a, b, c))`) is the function of the record's fields: `def f(a, b, c)` called as
+    `f(a, b, c)` (field names become the parameter names)"""
+    done = 0
+    funcs = [n for n in ast.walk(tree) if isinstance(n, ast.FunctionDef) and n.name.startswith("_") and not n.name.startswith("__")]
+    for fn in funcs:
+        a = fn.args
+        if a.vararg or a.kwarg or a.kwonlyargs or a.defaults or fn.decorator_list:
+            continue
+        for pi, prm in enumerate(list(a.args)):
+            if pi == 0 and prm.arg in ("self", "cls"):
+                continue
+            uses = [n for n in ast.walk(fn) if isinstance(n, ast.Name) and n.id == prm.arg]
+            par = {}
+            for n in ast.walk(fn):
+                for c in ast.iter_child_nodes(n):
+                    par[c] = n
+            if not uses or not all(isinstance(par.get(u), ast.Attribute) and par[u].value is u and isinstance(par[u].ctx, ast.Load)
+                                   for u in uses):
+                continue
+            # call sites: f(...) or <recv>.f(...) anywhere in the module
+            sites = []
+            for n in ast.walk(tree):
+                if isinstance(n, ast.Call) and ((isinstance(n.func, ast.Name) and n.func.id == fn.name) or
+                                                (isinstance(n.func, ast.Attribute) and n.func.attr == fn.name)):
+                    sites.append(n)
+            other_refs = [n for n in ast.walk(tree) if (isinstance(n, ast.Attribute) and n.attr == fn.name or
+                                                        isinstance(n, ast.Name) and n.id == fn.name) and
+                          not any(n is s_.func for s_ in sites)]
+            if not sites or other_refs:
+                continue
+            is_method = bool(a.args) and a.args[0].arg in ("self", "cls")
+            ai = pi - (1 if is_method else 0)
+            nt = None
+            ok = True
+            for s_ in sites:
+                if s_.keywords or any(isinstance(x, ast.Starred) for x in s_.args) or len(s_.args) != len(a.args) - (1 if is_method else 0):
+                    ok = False
+                    break
+                arg = s_.args[ai]
+                if not (isinstance(arg, ast.Call) and isinstance(arg.func, ast.Name) and arg.func.id in nts):
+                    ok = False
+                    break
+                fields = nts[arg.func.id][0]
+                if nt not in (None, arg.func.id) or arg.keywords and any(k.arg not in fields for k in arg.keywords) or \
+                        len(arg.args) + len(arg.keywords) != len(fields) or any(isinstance(x, ast.Starred) for x in arg.args):
+                    ok = False
+                    break
+                nt = arg.func.id
+            if not ok or nt is None:
+                continue
+            fields = nts[nt][0]
+            taken = {x.arg for x in a.args if x is not prm} | {n.id for n in ast.walk(fn) if isinstance(n, ast.Name) and n.id != prm.arg}
+            if set(fields) & taken or any(par[u].attr not in fields for u in uses):
+                continue
+            for u in uses:
+                at = par[u]
+                _become(at, ast.Name(id=at.attr, ctx=ast.Load()))
+            a.args[pi:pi + 1] = [ast.arg(arg=f_) for f_ in fields]
+            for s_ in sites:
+                arg = s_.args[ai]
+                by_kw = {k.arg: k.value for k in arg.keywords}
+                vals = list(arg.args) + [by_kw[f_] for f_ in fields[len(arg.args):]]
+                s_.args[ai:ai + 1] = vals
+            done += 1
+            break
+    if done:
         ast.fix_missing_locations(tree)
     return done
 
